@@ -144,7 +144,9 @@ def run(tier, seed):
                rule="random FGG specs with integer log-weights in {-inf,-2,-1,0} (two thirds non-recursive, one third recursive incl. weight-0 cycles and non-linear recursion), up to two start assignments each; forced shapes: rules whose attached nodes are all external, isolated nodes, size-1 domains, nullary factors, repeated attachments; distinct by spec, all with >= 1 rule",
                feature_histogram=feats, kernel_reevaluated=nk,
                samples=[dict(spec=gen.spec_jsonable(meta[0][0]), start_asst=meta[0][1], observed=meta[0][2])] if meta else [],
-               open_items=["a Gallina model of F_viterbi's pointer tables and reconstruct (C04_ptr_inv) is not built: the implementation is judged at the property's observation level by the verified oracle (well-formedness + optimal weight)"])
+               open_items=["a Gallina model of F_viterbi's pointer tables and reconstruct (DESIGN C04_ptr_inv / C04_wf for the pointer machinery) is not built: the implementation is judged at the property's observation level by the verified oracle (C04_check_sound: well-formed + weight = exact optimum over all derivations)",
+                           "FGGDerivation.derive() (hyperedge replacement) is not modelled in Gallina: C04_weight_is_factor_product proves that the derivation's weight is the product of its rule instances' terminal factor entries; that derive()'s factor graph has exactly these edges and values is checked per case by re-scoring derive()'s output in the harness (verdict 7)",
+                           "positive-weight cycles (no finite attained maximum): the exact enclosure does not converge, verdict 30, case skipped (outside the property's quantifier)"])
     return cov, violations
 
 def replay(path):
@@ -161,7 +163,7 @@ def replay(path):
 
 MANIFEST = dict(
     level="proof",
-    text="Coq: derivation trees, their weight and well-formedness are defined once (shared with C01); the Viterbi-semiring Kleene iterates are the maxima over derivations of bounded depth, so a well-formed derivation whose weight equals the exact least fixed point is optimal. Every derivation returned by fggs.viterbi on generated FGGs is converted to a tree and judged in Coq: well-formed, weight = optimum, derive()'s factor graph re-scored independently, sum_product(Viterbi) = optimum.",
-    note="Trusted: Coq kernel, extraction cross-checked by vm_compute, harness conversion of FGGDerivation objects to trees; the pointer machinery of viterbi is not modelled (observation-level oracle).",
-    technique="Coq-verified oracle (well-formedness + optimality against the exact trop least fixed point) on implementation outputs",
+    text="Coq (Props/C04.v, all closed, no premises about the semiring): derivation trees, their weight and well-formedness are defined once (shared with C01). C04_wf_reflect: the executable well-formedness test decides the Prop (rule of the nonterminal rewritten, every node of the rule instance has a value in its domain, externals agree with the parent, exactly one child per edge) for every grammar. C04_tree_weight_below_kleene: in the Viterbi semiring every well-formed derivation's weight is below the Kleene iterate at its depth. C04_optimal: when the exact max-plus Kleene iteration reaches its fixed point, that value bounds the weight of every well-formed derivation of every nonterminal and assignment (any depth), equals the maximum over the derivations of bounded depth and is attained by one of them unless it is -inf. C04_check_sound: verdict 0 of the check means the returned derivation is well formed, has finite weight, no derivation of the start symbol at that assignment weighs more, sum_product(Viterbi) contains that value and derive()'s re-scored weight equals it. C04_weight_is_factor_product: the weight of a derivation is the product of the terminal factor entries of its rule instances (= the score of derive()'s factor graph). The (max,+) law records are proved (C04_trop_ring, C04_trop_ordered). Every derivation returned by fggs.viterbi on generated FGGs is converted to a tree and judged by the extracted check.",
+    note="Trusted: Coq kernel, extraction cross-checked by vm_compute, harness conversion of FGGDerivation objects to trees and the harness's re-scoring of derive()'s output; the pointer machinery of viterbi and derive() itself are not modelled (observation-level oracle).",
+    technique="Coq-verified oracle (well-formedness + optimality against the exact trop least fixed point, proved to be the maximum over all derivation trees) on implementation outputs",
     design_ref="DESIGN.md section 6, C04")
